@@ -137,7 +137,7 @@ Theorem C17_update_correct_observe_added : forall pol la lt fuel a l s,
   0 < la -> 0 < lt -> Forall (ps_obs_wf la lt) l -> ps_obs_wf la lt a -> (length l < fuel)%nat ->
   ps_holds ps_obs_file (ps_view s PS_OBS) l ->
   exists s', ps_run pol (ps_obs_added la lt fuel a) s = (1, s') /\
-    ps_view s' PS_OBS = Some (ps_obs_file (ps_obs_without (ob_key a) l ++ [a])) /\
+    ps_view s' PS_OBS = Some (ps_obs_file (ps_obs_without (pso_key a) l ++ [a])) /\
     (forall j, j <> PS_OBS -> ps_view s' j = ps_view s j).
 Proof. exact ps_obs_added_correct. Qed.
 Print Assumptions C17_update_correct_observe_added.
@@ -155,7 +155,7 @@ Theorem C17_update_correct_dyn_added : forall pol fuel a l s,
   Forall ps_dyn_wf l -> ps_dyn_wf a -> (length l < fuel)%nat ->
   ps_holds ps_dyn_file (ps_view s PS_DYN) l ->
   exists s', ps_run pol (ps_dyn_added fuel a) s = (1, s') /\
-    ps_view s' PS_DYN = Some (ps_dyn_file (ps_dyn_without (dy_name a) l ++ [a])) /\
+    ps_view s' PS_DYN = Some (ps_dyn_file (ps_dyn_without (psd_name a) l ++ [a])) /\
     (forall j, j <> PS_DYN -> ps_view s' j = ps_view s j).
 Proof. exact ps_dyn_added_correct. Qed.
 Print Assumptions C17_update_correct_dyn_added.
@@ -190,7 +190,7 @@ Print Assumptions C17_update_correct_counter_deleted.
 (* coap_op_dyn_resource_added as it was before the fix (fopen "a", then fread): two additions
    leave a file that holds only the newest resource *)
 Theorem C17_update_correct_refuted_old_dyn_added :
-  exists a b : ps_dyn, ps_dyn_wf a /\ ps_dyn_wf b /\ dy_name a <> dy_name b /\
+  exists a b : ps_dyn, ps_dyn_wf a /\ ps_dyn_wf b /\ psd_name a <> psd_name b /\
     let s1 := snd (ps_run ps_pol_lazy (ps_dyn_added_old 100%nat a) (ps_boot [])) in
     let s2 := snd (ps_run ps_pol_lazy (ps_dyn_added_old 100%nat b) (ps_crash s1)) in
     ps_view s2 PS_DYN = Some (ps_dyn_file [b]).
@@ -223,15 +223,15 @@ Print Assumptions C17_update_correct_refuted_old_dyn_added.
    satisfy the distinctness above); it is covered by C17_update_correct_* per updater and by the
    tie and the oracle on every run, not by one theorem over histories. *)
 Theorem C17_restart_restores_partial : forall pol app req alloc cfg m0 D O C fs,
-  0 < cf_la cfg -> 0 < cf_lt cfg -> (forall live, len (alloc live) = PS_KEY) ->
-  cf_dyn cfg = true -> cf_obs cfg = true -> cf_cnt cfg = true -> cf_unknown cfg = true ->
-  Forall ps_dyn_wf D -> Forall (ps_obs_wf (cf_la cfg) (cf_lt cfg)) O -> Forall ps_cnt_wf C ->
-  (length D < cf_fuel cfg)%nat -> (length O < cf_fuel cfg)%nat ->
-  (length C + length O < cf_fuel cfg)%nat ->
+  0 < psc_la cfg -> 0 < psc_lt cfg -> (forall live, len (alloc live) = PS_KEY) ->
+  psc_dyn cfg = true -> psc_obs cfg = true -> psc_cnt cfg = true -> psc_unknown cfg = true ->
+  Forall ps_dyn_wf D -> Forall (ps_obs_wf (psc_la cfg) (psc_lt cfg)) O -> Forall ps_cnt_wf C ->
+  (length D < psc_fuel cfg)%nat -> (length O < psc_fuel cfg)%nat ->
+  (length C + length O < psc_fuel cfg)%nat ->
   ps_holds ps_dyn_file (ps_view (ps_boot fs) PS_DYN) D ->
   ps_view (ps_boot fs) PS_OBS = Some (ps_obs_file O) ->
   ps_holds ps_cnt_file (ps_view (ps_boot fs) PS_CNT) C ->
-  ps_mem_ok (ps_set_counts (ps_rounded (cf_freq cfg) C) (ps_dyn_fold (ps_dyn_step app) D m0)) ->
+  ps_mem_ok (ps_set_counts (ps_rounded (psc_freq cfg) C) (ps_dyn_fold (ps_dyn_step app) D m0)) ->
   exists s',
     ps_run pol (ps_startup app req alloc cfg m0) (ps_boot fs) =
       (Some (ps_restored_mem app req alloc cfg m0 D O C), s') /\
@@ -243,17 +243,17 @@ Print Assumptions C17_restart_restores_partial.
 (* every dynamic resource whose record is in the file exists again (the application re-creates
    the resource that the stored request names: deterministic handler) *)
 Theorem C17_restart_restores_resources : forall app req alloc cfg m0 D O C,
-  (forall d, In d D -> exists o, app (dy_pkt d) = Some (dy_name d, o)) ->
-  forall d, In d D -> ps_has (ps_restored_mem app req alloc cfg m0 D O C) (dy_name d).
+  (forall d, In d D -> exists o, app (psd_pkt d) = Some (psd_name d, o)) ->
+  forall d, In d D -> ps_has (ps_restored_mem app req alloc cfg m0 D O C) (psd_name d).
 Proof. exact (ps_restored_has_dyn ps_pol_lazy). Qed.
 Print Assumptions C17_restart_restores_resources.
 
 Theorem C17_restart_restores_observation : forall req alloc cfg r m C name token ck rs,
-  ps_beq (ob_proto r) (cf_proto cfg) = true -> ps_beq (ob_listen r) (cf_listen cfg) = true ->
-  req (ob_pkt r) = Some (name, token, ck) -> ps_find name m = Some rs -> rs_observable rs = true ->
+  ps_beq (pso_proto r) (psc_proto cfg) = true -> ps_beq (pso_listen r) (psc_listen cfg) = true ->
+  req (pso_pkt r) = Some (name, token, ck) -> ps_find name m = Some rs -> psr_observable rs = true ->
   exists key, snd (fst (ps_obs_step_spec req alloc cfg r m C)) = Some key /\
     exists rs' s, ps_find name (fst (fst (ps_obs_step_spec req alloc cfg r m C))) = Some rs' /\
-      In s (rs_subs rs') /\ su_key s = key /\ su_tuple s = ob_tuple r /\ su_token s = token.
+      In s (psr_subs rs') /\ pss_key s = key /\ pss_tuple s = pso_tuple r /\ pss_token s = token.
 Proof. exact ps_obs_step_accepts. Qed.
 Print Assumptions C17_restart_restores_observation.
 
@@ -263,8 +263,8 @@ Print Assumptions C17_restart_restores_observation.
    (coap_add_observer keeps at most one subscription per such key, so the files it maintains
    satisfy this) and each names an existing observable resource *)
 Theorem C17_restart_restores_observations : forall app req alloc cfg m0 D O C,
-  let m2 := ps_set_counts (ps_rounded (cf_freq cfg) C) (ps_dyn_fold (ps_dyn_step app) D m0) in
-  (forall n rs, ps_find n m2 = Some rs -> rs_subs rs = []) ->
+  let m2 := ps_set_counts (ps_rounded (psc_freq cfg) C) (ps_dyn_fold (ps_dyn_step app) D m0) in
+  (forall n rs, ps_find n m2 = Some rs -> psr_subs rs = []) ->
   (forall r, In r O -> ps_acceptable req cfg m2 r) ->
   NoDup (map (ps_ktok req) O) -> NoDup (map (ps_kck req) O) ->
   forall r, In r O -> ps_present req (ps_restored_mem app req alloc cfg m0 D O C) r.
